@@ -1692,6 +1692,7 @@ struct const_subarray : array_types<T, D, ElementPtr, Layout> {
 	constexpr auto operator< (const_subarray const& other) const& -> bool {return lexicographical_compare(*this, other);}
 	constexpr auto operator<=(const_subarray const& other) const& -> bool {return *this == other || lexicographical_compare(*this, other);}
 	constexpr auto operator> (const_subarray const& other) const& -> bool {return other < *this;}
+	constexpr auto operator>=(const_subarray const& other) const& -> bool {return other <= *this;}
 
 	template<class T2, class P2 = typename std::pointer_traits<element_ptr>::template rebind<T2>,
 		std::enable_if_t<  std::is_const_v<typename std::pointer_traits<P2>::element_type>,int> =0  // NOLINT(modernize-use-constraints) TODO(correaa)
